@@ -220,13 +220,16 @@ func (x *ctx) runCase(c Case, o *vlib.Oracle) {
 		x.mirrorCheck(c, a[0], a[1], a[2], real)
 		if useOracle {
 			rep := strings.Fields(o.MustAsk("schnorr " + strings.Join(c.Args, " ")))
-			if len(rep) != 2 || rep[0] != boolStr(real) {
+			if len(rep) != 3 || rep[0] != boolStr(real) {
 				x.tie(c, "model schnorrVerify="+strings.Join(rep, " ")+" real="+boolStr(real))
 			} else {
 				r.TieOK()
 			}
-			if len(rep) == 2 && rep[0] != rep[1] {
+			if len(rep) == 3 && rep[0] != rep[1] {
 				x.tie(c, "theorem schnorr_accept_iff contradicted: model="+rep[0]+" spec="+rep[1])
+			}
+			if len(rep) == 3 && rep[1] != rep[2] {
+				x.tie(c, "Spec.Bip340.verify="+rep[1]+" but the BIP-text form verifyText="+rep[2]+" (theorem schnorr_accept_text_partial: would exhibit a curve point whose order does not divide n)")
 			}
 		}
 	case "tweak": // qx base hash parity(00|01)
@@ -282,6 +285,9 @@ func (x *ctx) runCase(c Case, o *vlib.Oracle) {
 			}
 		}
 		r.Hit("ssign nil=" + boolStr(real == nil))
+		if len(a[1]) != 32 {
+			r.Hit(fmt.Sprintf("ssign key-length-not-32 (%s) nil=%s", lenClass(len(a[1])), boolStr(real == nil)))
+		}
 		if useOracle {
 			rep := strings.Fields(o.MustAsk("ssign " + strings.Join(c.Args, " ")))
 			want := "none"
@@ -293,8 +299,13 @@ func (x *ctx) runCase(c Case, o *vlib.Oracle) {
 			} else {
 				r.TieOK()
 			}
-			if len(rep) == 4 && rep[1] != rep[3] {
+			// Spec.Bip340.sign reads a key of any length as an integer; the theorem (and BIP340) is for 32 bytes.
+			// For every other length the model says nil (theorem schnorr_sign_key_length) = the real code, above.
+			if len(rep) == 4 && len(a[1]) == 32 && rep[1] != rep[3] {
 				x.tie(c, "theorem bip340_sign_matches contradicted: model="+rep[1]+" spec="+rep[3])
+			}
+			if len(rep) == 4 && len(a[1]) != 32 && rep[1] != "none" {
+				x.tie(c, "theorem schnorr_sign_key_length contradicted: model="+rep[1]+" for a key of "+fmt.Sprint(len(a[1]))+" bytes")
 			}
 		}
 	case "nonce": // prv msg counter(1 byte)
@@ -378,6 +389,17 @@ func (x *ctx) runCase(c Case, o *vlib.Oracle) {
 	}
 }
 
+func lenClass(n int) string {
+	switch {
+	case n == 0:
+		return "empty"
+	case n < 32:
+		return "shorter"
+	default:
+		return "longer"
+	}
+}
+
 func numHex(v *big.Int) string {
 	b := v.Bytes()
 	if len(b) == 0 {
@@ -413,6 +435,9 @@ func secpCode(pk, sig, msg []byte) int {
 func (x *ctx) checkOwnSig(c Case, d *big.Int, msg []byte, r, s *big.Int, recid int, haveRecid bool) {
 	pub := refMul(new(big.Int).Mod(d, refN), refG())
 	if pub == nil {
+		// key = 0 mod n: there is no public key to verify against; outside the property's quantifier (the
+		// generators never draw it) — recorded, not silently dropped
+		x.r.Hit("own-signature checks skipped: secret key = 0 mod n")
 		return
 	}
 	sig := secp256k1.Signature{}
@@ -481,6 +506,18 @@ func (x *ctx) runSign(c Case, a [][]byte, o *vlib.Oracle, useOracle bool, key st
 		return
 	}
 	r.Hit(fmt.Sprintf("sign res=%d recid=%d", res, recid))
+	{
+		// the reference decides whether a signature exists: S = k^-1 (m + r d) mod n is 0 exactly when Sign must
+		// return 0 (class sign/s-zero builds such inputs); any other disagreement is a property failure
+		d := new(big.Int).Mod(&sec.Int, refN)
+		_, rs := refEcdsaSignWithNonce(d, &msg.Int, &non.Int)
+		if (rs.Sign() == 0) != (res != 1) {
+			x.prop(c, fmt.Sprintf("Signature.Sign returned %d but textbook ECDSA gives S = %s (a signature exists exactly when S != 0)", res, rs.Text(16)))
+		}
+		if res != 1 {
+			r.Hit("sign refused: S = 0")
+		}
+	}
 	if res == 1 {
 		x.checkOwnSig(c, &sec.Int, a[1], &sig.R.Int, &sig.S.Int, recid, true)
 		rr, rs := refEcdsaSignWithNonce(new(big.Int).Mod(&sec.Int, refN), &msg.Int, &non.Int)
@@ -538,7 +575,26 @@ func (x *ctx) runSignRfc(c Case, a [][]byte, o *vlib.Oracle, useOracle bool, key
 		return
 	}
 	if err != nil {
+		// EcdsaSign's only error is Signature.Sign returning 0 (S = 0). Judge it: the reference must agree that
+		// no signature exists for the RFC 6979 nonce, and the model must say `none` as well.
 		r.Hit("signrfc error")
+		dd := new(big.Int).Mod(new(big.Int).SetBytes(a[0]), refN)
+		kk := new(big.Int).SetBytes(refRFC6979(a[0], a[1], 0))
+		expect := false
+		if len(a[0]) == 32 && len(a[1]) == 32 && kk.Sign() > 0 && kk.Cmp(refN) < 0 {
+			_, es := refEcdsaSignWithNonce(dd, new(big.Int).SetBytes(a[1]), kk)
+			expect = es.Sign() == 0
+		}
+		if !expect {
+			x.prop(c, "EcdsaSign(RFC6979) returned the error '"+err.Error()+"' although the RFC 6979 reference signature exists")
+		}
+		if useOracle {
+			if rep := o.MustAsk("signrfc " + strings.Join(c.Args, " ")); rep != "none" {
+				x.tie(c, "model ecdsaSignRfc="+rep+" but the real EcdsaSign returned an error")
+			} else {
+				r.TieOK()
+			}
+		}
 		return
 	}
 	d := new(big.Int).SetBytes(a[0])
@@ -577,7 +633,10 @@ func (x *ctx) runSignRnd(c Case, a [][]byte, o *vlib.Oracle, useOracle bool, key
 		return
 	}
 	if err != nil {
+		// the nonce is drawn inside the code; an error means S = 0 for that nonce (probability 2^-256 per call):
+		// not explainable by any input the generator controls -> the signer failed on an ordinary input
 		r.Hit("signrnd error")
+		x.prop(c, "EcdsaSign(random nonce) returned the error '"+err.Error()+"' on an ordinary (key, hash)")
 		return
 	}
 	d := new(big.Int).Mod(new(big.Int).SetBytes(a[0]), refN)
@@ -631,6 +690,8 @@ var legacyExpect = map[string]string{
 	"tweak-nonliftable": "1",
 	"tweak-t-plus-n":    "1",
 	"schnorr-s-plus-n":  "1",
+	"recov-infinity":    "inf",
+	"ssign-short-key":   "panic",
 }
 
 func refHmac(key, data []byte) []byte {
@@ -651,6 +712,9 @@ func main() {
 		"the hooks btc.EC_Verify, btc.Schnorr_Verify, btc.Check_PayToContract (lib/btc/ecdsa.go) are nil: model, theorems and tie are for the pure-Go path; client/speedups/*.go sets them to libsecp256k1 cgo wrappers which then REPLACE all three verify observables — not covered",
 		"only the platform's lib/secp256k1 field implementation is run (field_5x52.go on amd64); the field_10x26.go build selected by build tag is not exercised",
 		"RFC 6979 means libsecp256k1's variant of §3.2: h1 = the 32 message-hash bytes fed to HMAC unreduced (no bits2octets); external vectors exist only for hash < n (lib/btc/hash_test.go), for hash >= n only code = model = reference-of-the-variant is checked",
+		"BIP340 'fail if r >= p' cannot be discriminated by any input on the real btc.SchnorrVerify (a signature with r = x(R)+p needs a nonce point with x(R) < 2^32+977 for a key satisfying a hash equation): it rests on the model theorem schnorr_refuses_r_ge_p, on the source fact regenerated by go/cmd/gen_c03 (the Field loaded from sig[:32] is only ever compared with Equals, never normalised; theorem schnorr_sig_r_compared_raw) and on the re-assembled steps with an injected challenge (class schnorre/*-r-plus-p)",
+		"Spec.Bip340.verify writes -e*P as ((n-e) mod n)*P (the code's shape); it equals BIP340's own -(e*P) (Spec.Bip340.verifyText, the form the math/big reference uses) for keys whose lifted point has order dividing n - for all keys only given #E(F_p) = n, which is not proved (schnorr_accept_text_partial); the oracle evaluates both forms on every schnorr / schnorre case",
+		"the specs read hash / message arguments of any length as integers, as the code does (CheckPayToContract accepts a 33-byte 00||t as t; callers pass 32-byte tagged hashes)",
 		"btc.SchnorrVerify with a challenge e > n (XYZ.ECmult gets the NEGATIVE scalar n-e; probability about 2^-128 per verification) cannot be driven through SchnorrsigChallenge (plain func over SHA-256); it is exercised through SchnorrVerify's own steps with an injected challenge (ops schnorre, ecmneg) and the mirror is checked against btc.SchnorrVerify on every schnorr case; that the real SchnorrVerify composes these steps the same way for e > n is assumed",
 	}
 	if r.Replay != "" {
@@ -793,7 +857,7 @@ func main() {
 	r.Extra["oracle_workers"] = workers
 	r.Extra["model_tie_share"] = shareReport()
 	r.Finish(
-		"corpus (defect witnesses, boundary scalars, BIP340 CSV rows, RFC6979/HMAC and signature vectors from the repo's tests) then a structured generator: valid triples from random keys in all key formats, then one mutation per case (bit flips, r/s in {0,n,n+k,p,2^256-1,s+n,n-s}, 33-byte and padded integers, DER container damage, x>=p, y>=p, non-residue x, off-curve, hybrid parity, wrong lengths, infinity results, own-arithmetic forgeries, algebraic triples with small s offered as s+n < 2^256, triples solved for a chosen nonce point with n <= x(R) < p (r = x-n) and their unreduced / negated-key / high-S / bit-flipped siblings, twin nonce points x and x+n sharing one r, public-key recovery on arbitrary (r, s, hash, recid) with the recovered triple offered back to the verifier, signing inputs solved for short R / short S with the top bit set, RFC6979 nonces for message hashes 0 / n+k / ff..ff, the repository's RFC6979 vectors with their expected outputs (noncevec), SchnorrVerify's steps with an injected challenge e >= n on valid / shifted-by-n / odd-R / bit-flipped signatures (schnorre) and XYZ.ECmult with negative scalars (ecmneg), results at infinity for all three verifiers with the claim ranging over every coordinate an implementation could have left behind (inf.go: operand x, x(G), the double, gocoin's own ECPublicTweakAdd residue, both parities, the finite neighbour) and XY.ECPublicTweakAdd itself against A + t*G incl. sums at infinity (tweakadd)); then incremental sweeps (sweep.go: valid tweak / ECDSA / BIP340 inputs advanced by one point addition per case, each with its minimal invalid sibling; counted as evaluations with an empty distinct key); distinct = distinct (op, arguments)",
+		"corpus (defect witnesses, boundary scalars, BIP340 CSV rows, RFC6979/HMAC and signature vectors from the repo's tests) then a structured generator: valid triples from random keys in all key formats, then one mutation per case (bit flips, r/s in {0,n,n+k,p,2^256-1,s+n,n-s}, 33-byte and padded integers, DER container damage, x>=p, y>=p, non-residue x, off-curve, hybrid parity, wrong lengths, infinity results, own-arithmetic forgeries, algebraic triples with small s offered as s+n < 2^256, triples solved for a chosen nonce point with n <= x(R) < p (r = x-n) and their unreduced / negated-key / high-S / bit-flipped siblings, twin nonce points x and x+n sharing one r, public-key recovery on arbitrary (r, s, hash, recid) with the recovered triple offered back to the verifier, signing inputs solved for short R / short S with the top bit set, signing inputs solved for S = 0 (message value -r*d: Signature.Sign must return 0) with the neighbour m+1, recovery inputs solved for a result at infinity (R = k*G, m = s*k: nil expected) with the other parity and the neighbouring message, BIP340 signing with secret keys of 0 / 1 / 4 / 31 / 33+ bytes (nil expected), SchnorrVerify's steps on r = x(R)+p for a tiny-x nonce point with the key solved for the injected challenge, RFC6979 nonces for message hashes 0 / n+k / ff..ff, the repository's RFC6979 vectors with their expected outputs (noncevec), SchnorrVerify's steps with an injected challenge e >= n on valid / shifted-by-n / odd-R / bit-flipped signatures (schnorre) and XYZ.ECmult with negative scalars (ecmneg), results at infinity for all three verifiers with the claim ranging over every coordinate an implementation could have left behind (inf.go: operand x, x(G), the double, gocoin's own ECPublicTweakAdd residue, both parities, the finite neighbour) and XY.ECPublicTweakAdd itself against A + t*G incl. sums at infinity (tweakadd)); then incremental sweeps (sweep.go: valid tweak / ECDSA / BIP340 inputs advanced by one point addition per case, each with its minimal invalid sibling; counted as evaluations with an empty distinct key); distinct = distinct (op, arguments)",
 		"real gocoin functions vs an independent math/big reference (property predicate) on every case; a subset also through the Lean model and Lean spec (oracle_c03): real=model is the tie, model=spec is what the iff-theorems state")
 }
 
@@ -801,14 +865,33 @@ func main() {
 func repoVectorCases() []Case {
 	var out []Case
 	f, err := os.Open(vtrans.RepoRoot() + "/lib/test/bip340_test_vectors.csv")
-	if err == nil {
-		rows, _ := csv.NewReader(f).ReadAll()
+	if err != nil {
+		fmt.Fprintln(os.Stderr, "c03: the repository's BIP340 vectors cannot be read:", err)
+		os.Exit(2)
+	}
+	{
+		rows, rerr := csv.NewReader(f).ReadAll()
 		f.Close()
+		if rerr != nil || len(rows) < 16 {
+			fmt.Fprintln(os.Stderr, "c03: lib/test/bip340_test_vectors.csv is damaged or shorter than the 15 BIP340 vectors:", rerr, len(rows))
+			os.Exit(2)
+		}
 		for i, row := range rows {
-			if i == 0 || len(row) < 7 {
+			if i == 0 {
 				continue
 			}
-			d := func(s string) []byte { b, _ := hex.DecodeString(s); return b }
+			if len(row) < 7 {
+				fmt.Fprintln(os.Stderr, "c03: bip340_test_vectors.csv: short row", i)
+				os.Exit(2)
+			}
+			d := func(s string) []byte {
+				b, err := hex.DecodeString(s)
+				if err != nil {
+					fmt.Fprintln(os.Stderr, "c03: bip340_test_vectors.csv: bad hex in row", i)
+					os.Exit(2)
+				}
+				return b
+			}
 			out = append(out, mk("schnorr", "bip340-csv", true, d(row[2]), d(row[5]), d(row[4])))
 			if len(row[1]) == 64 {
 				out = append(out, mk("ssign", "bip340-csv", true, d(row[4]), d(row[1]), d(row[3])))
